@@ -1,4 +1,11 @@
-import BGV
+import BGV.Model.Basic
+import BGV.Model.Graph
+import BGV.Model.Multi
+import BGV.Model.Weighted
+import BGV.Model.Topology
+import BGV.Model.Paths
+import BGV.Model.PathHelpers
+import BGV.Model.FileIO
 /-!
 # Driver — interprets the line protocol of /verif/DESIGN.md §2.2 over the Lean model.
 
